@@ -40,6 +40,16 @@ def handle (tb : Tables) (c impl : T) : String :=
         let altNoPrint := match alt with | .node "obs" [rs, _] => T.node "obs" [rs, .atom "_"] | t => t
         if wmatch altNoPrint impl && d25 && specOk then "repaired D25"
         else "mismatch " ++ (if specOk then "spec-ok " else "spec-bad ") ++ cur.render
+  | .node "c11m" [_] =>
+    -- a resolver that keeps or changes the argument it is handed; obs: (obs (l sameAsFresh…) printedSame).  The
+    -- model is the property itself: every resolve of the reused request answers like a freshly parsed one.  With
+    -- arguments built in place (D25) the literals of the request are what the resolver changes.
+    (match impl with
+     | .node "obs" [.node "l" sames, printed] =>
+       if sames.all (· == T.ofBool true) && printed == T.ofBool true then "ok"
+       else if tb.argsInPlace then "dev D25"
+       else "mismatch spec-bad (obs (l true true true true) true)"
+     | _ => "bad-op")
   | _ => "bad-op"
 
 def flags (tb : Tables) : List (String × Bool) := [("D25", tb.argsInPlace)]
